@@ -2,7 +2,7 @@ import sys, os
 sys.path.insert(0, os.path.join(os.path.dirname(__file__), '..', 'common'))
 from vlib import H
 from st_probes import ST_PROBES
-PR = dict(ST_PROBES); PR.update({'SZ_vtable': 'sizeof(struct dispatch_lane_vtable_s)', 'OFF_vt_wakeup': 'offsetof(struct dispatch_lane_vtable_s, _os_obj_vtable.dq_wakeup)', 'OFF_vt_push': 'offsetof(struct dispatch_lane_vtable_s, _os_obj_vtable.dq_push)'})
+PR = dict(ST_PROBES); PR.update({'DC_FLAG_CONSUME': 'DC_FLAG_CONSUME', 'SZ_vtable': 'sizeof(struct dispatch_lane_vtable_s)', 'OFF_vt_wakeup': 'offsetof(struct dispatch_lane_vtable_s, _os_obj_vtable.dq_wakeup)', 'OFF_vt_push': 'offsetof(struct dispatch_lane_vtable_s, _os_obj_vtable.dq_push)'})
 ST_STUBS = ['_dispatch_bug', '_dispatch_set_basepri_override_qos', 'libdispatch_tsd_init', '_dispatch_queue_push_queue', '_dispatch_release_2_tailcall', '_dispatch_retain_2',
             '_dispatch_queue_wakeup_with_override_slow', '_dispatch_lane_wakeup', '_dispatch_lane_drain_barrier_waiter', '_dispatch_workloop_drain_barrier_waiter']
 def S(name, define, units, note, **kw):
@@ -15,6 +15,8 @@ HARNESSES = [
     H('S_sync_fast_complete', 'h_state.c', ['_dispatch_lane_barrier_sync_invoke_and_complete', '__dispatch_tsd'], stubs=['_dispatch_bug', '_dispatch_set_basepri_override_qos', 'libdispatch_tsd_init', '_dispatch_client_callout', '_dispatch_lane_barrier_complete',
         '_dispatch_queue_push_queue', '_dispatch_release_2_tailcall', '_dispatch_retain_2', '_dispatch_queue_wakeup_with_override_slow', '_dispatch_lane_wakeup', '_dispatch_lane_drain_barrier_waiter', '_dispatch_workloop_drain_barrier_waiter'],
       nt=1, heap=1024, defines=['-DH_SYNCDONE'], unwind=5, probes=PR, timeout=300, note='real _dispatch_lane_barrier_sync_invoke_and_complete: the uncontended sync unlock is refused when a waiter set DIRTY meanwhile; all owner-held states, <=2 interferences'),
+    H('S_drain_non_barriers', 'h_state.c', ['_dispatch_lane_drain_non_barriers', '_dispatch_lane_wakeup', '__dispatch_tsd'], stubs=ST_STUBS + ['_dispatch_continuation_redirect_push', '_dispatch_lane_barrier_complete', '_dispatch_wait_for_enqueuer', '_dispatch_non_barrier_waiter_redirect_or_wake'], nt=1, heap=1024, defines=['-DH_DRAINNB'], unwind=5, unwindset='_dispatch_lane_drain_non_barriers.0:2,_dispatch_lane_drain_non_barriers.1:4,_dispatch_lane_drain_non_barriers.2:4,_dispatch_queue_try_acquire_async.0:3', probes=PR, timeout=900, witness_any=True, icall_only=['_dispatch_lane_wakeup'],
+      note='real _dispatch_lane_drain_non_barriers with one plain item queued: all barrier-held states, widths 2..4094, <=2 interfering updates (racing pushes setting DIRTY)'),
     S('S_barrier_complete', 'H_BCOMPLETE', ['_dispatch_lane_class_barrier_complete'], 'real _dispatch_lane_class_barrier_complete, target NONE/TARGET: all barrier-held states'),
 ]
 PRP = dict(PR); PRP.update({'SZ_rootq': 'sizeof(struct dispatch_queue_global_s)', 'OFF_dgq_pending': 'offsetof(struct dispatch_queue_global_s, dgq_pending)', 'OFF_dgq_thread_pool_size': 'offsetof(struct dispatch_queue_global_s, dgq_thread_pool_size)',
